@@ -1,0 +1,66 @@
+// SPDX-FileCopyrightText: 2022-present Intel Corporation
+//
+// SPDX-License-Identifier: Apache-2.0
+
+//go:build verif
+
+// Contracts for the deductive verifier in /verif (govc). Comment-only: this file contains no code
+// and is excluded from every build that does not set the "verif" tag.
+
+package proposal
+
+//@ import configapi "github.com/onosproject/onos-api/go/onos/config/v2"
+
+// Ghost snapshot of the proposal as read: phase states (-1 when the phase does not exist yet),
+// links and the immutable details.
+//@ ghost configapi.Proposal.tracked bool
+//@ ghost configapi.Proposal.snapInit int
+//@ ghost configapi.Proposal.snapValidate int
+//@ ghost configapi.Proposal.snapCommit int
+//@ ghost configapi.Proposal.snapApply int
+//@ ghost configapi.Proposal.snapAbort int
+//@ ghost configapi.Proposal.snapPrev int
+//@ ghost configapi.Proposal.snapNext int
+//@ ghost configapi.Proposal.snapTxIndex int
+//@ ghost configapi.Proposal.snapTarget string
+//@ ghost configapi.Proposal.snapDetailsTag int
+//@ ghost configapi.Proposal.snapRollbackIndex int
+//@ ghost configapi.Proposal.snapRollbackValues int
+
+//@ ghost proposalStatusWrites int
+//@ ghost proposalCreates int
+
+//@ spec initState(p *configapi.Proposal) int = ite(p.Status.Phases.Initialize == nil, 0 - 1, p.Status.Phases.Initialize.State)
+//@ spec validateState(p *configapi.Proposal) int = ite(p.Status.Phases.Validate == nil, 0 - 1, p.Status.Phases.Validate.State)
+//@ spec commitState(p *configapi.Proposal) int = ite(p.Status.Phases.Commit == nil, 0 - 1, p.Status.Phases.Commit.State)
+//@ spec applyState(p *configapi.Proposal) int = ite(p.Status.Phases.Apply == nil, 0 - 1, p.Status.Phases.Apply.State)
+//@ spec abortState(p *configapi.Proposal) int = ite(p.Status.Phases.Abort == nil, 0 - 1, p.Status.Phases.Abort.State)
+
+//@ spec proposalSnapshotted(p *configapi.Proposal) bool = p.tracked && p.snapInit == initState(p) && p.snapValidate == validateState(p) && p.snapCommit == commitState(p) && p.snapApply == applyState(p) && p.snapAbort == abortState(p) && p.snapPrev == p.Status.PrevIndex && p.snapNext == p.Status.NextIndex && p.snapTxIndex == p.TransactionIndex && p.snapTarget == p.TargetID && p.snapDetailsTag == typeTag(p.Details) && p.snapRollbackIndex == p.Status.RollbackIndex && p.snapRollbackValues == p.Status.RollbackValues
+
+// A phase state only moves forward and a finished phase never changes again.
+//@ spec phaseForward(was int, now int) bool = now >= was && (was >= 1 ==> now == was)
+
+//@ spec proposalWellFormed(p *configapi.Proposal) bool = p.Details != nil && (isType(p.Details, "*configapi.Proposal_Change") ==> asType(p.Details, "*configapi.Proposal_Change") != nil && asType(p.Details, "*configapi.Proposal_Change").Change != nil) && (isType(p.Details, "*configapi.Proposal_Rollback") ==> asType(p.Details, "*configapi.Proposal_Rollback") != nil && asType(p.Details, "*configapi.Proposal_Rollback").Rollback != nil) && (isType(p.Details, "*configapi.Proposal_Change") || isType(p.Details, "*configapi.Proposal_Rollback"))
+
+//@ iface Store.Get(ctx, id) (result, err)
+//@   modifies nothing
+//@   ensures err != nil ==> result == nil
+//@   ensures err == nil ==> result != nil && fresh(result) && proposalSnapshotted(result) && proposalWellFormed(result)
+
+//@ iface Store.Create(ctx, proposal) (err)
+//@   requires proposal != nil
+//@   modifies proposal.ObjectMeta, proposalCreates
+//@   ensures proposalCreates == old(proposalCreates) + 1
+
+//@ iface Store.UpdateStatus(ctx, proposal) (err)
+//@   requires proposal != nil
+//@   guard {C01,C02,C07} prop.read-before-write: proposal.tracked
+//@   guard {C01,C02,C07} prop.phase-forward: phaseForward(proposal.snapInit, initState(proposal)) && phaseForward(proposal.snapValidate, validateState(proposal)) && phaseForward(proposal.snapCommit, commitState(proposal)) && phaseForward(proposal.snapApply, applyState(proposal)) && phaseForward(proposal.snapAbort, abortState(proposal))
+//@   guard {C02,C07} prop.links-set-once: (proposal.snapPrev != 0 ==> proposal.Status.PrevIndex == proposal.snapPrev) && (proposal.snapNext != 0 ==> proposal.Status.NextIndex == proposal.snapNext)
+//@   guard {C01,C07} prop.details-immutable: proposal.TransactionIndex == proposal.snapTxIndex && proposal.TargetID == proposal.snapTarget && typeTag(proposal.Details) == proposal.snapDetailsTag
+//@   guard {C06,C07} prop.rollback-values-only-with-validation: (proposal.Status.RollbackIndex != proposal.snapRollbackIndex || proposal.Status.RollbackValues != proposal.snapRollbackValues) ==> proposal.snapValidate == 0 && validateState(proposal) == 1
+//@   modifies proposal.ObjectMeta, proposal.tracked, proposal.snapInit, proposal.snapValidate, proposal.snapCommit, proposal.snapApply, proposal.snapAbort, proposal.snapPrev, proposal.snapNext, proposal.snapTxIndex, proposal.snapTarget, proposal.snapDetailsTag, proposal.snapRollbackIndex, proposal.snapRollbackValues, proposalStatusWrites
+//@   ensures proposalStatusWrites == old(proposalStatusWrites) + 1
+//@   ensures err == nil ==> proposalSnapshotted(proposal)
+//@   ensures err != nil ==> !proposal.tracked
